@@ -1,4 +1,5 @@
 //! ktmc - model-checking harness for kmertools (links the real crates from /repo).
+mod conc;
 mod ctx;
 mod enumr;
 mod files;
@@ -71,6 +72,12 @@ fn real_main(args: &[String], scratch: &str) -> i32 {
                 "C11" => vecs::c11(&mut ctx),
                 "C12" => vecs::c12(&mut ctx),
                 "C06" => files::c06(&mut ctx),
+                "C05sched" => conc::c05_sched(&mut ctx),
+                "C14" => conc::c14(&mut ctx),
+                "C07sched" => conc::c07_sched(&mut ctx),
+                "C10sched" => conc::c10_sched(&mut ctx),
+                "C05cfg" => conc::c05_lattice(&mut ctx),
+                "C10cfg" => conc::c10_configs(&mut ctx),
                 "C07cfg" => files::c07_configs(&mut ctx),
                 "C08" => files::c08(&mut ctx),
                 other => {
@@ -93,6 +100,9 @@ fn real_main(args: &[String], scratch: &str) -> i32 {
             match args[2].as_str() {
                 "C01" | "C02code" | "C02stream" | "C09" | "C18" => iters::replay(&mut ctx, &args[2..]),
                 "C03" | "C04" | "C04file" | "C11" | "C11long" | "C11file" | "C12" => vecs::replay(&mut ctx, &args[2..]),
+                "C05sched" | "C14sched" | "C14lattice" | "C07sched" => conc::replay(&mut ctx, &args[2..]),
+                "C10s2m" | "C10m2s" | "C10s2m-free" | "C10m2s-free" | "C10big" => conc::replay_min(&mut ctx, &args[2..]),
+                "C05cfg" => conc::replay_c05cfg(&mut ctx, &args[2..]),
                 "C06" | "C06long" | "C07" | "C08" | "C08one" | "C08direct" => files::replay(&mut ctx, &args[2..]),
                 other => {
                     eprintln!("unknown case kind {}", other);
